@@ -365,6 +365,11 @@ def run_c07(case):
 
 # ------------------------------------------------------------------ C20: source / query restricted inference
 
+def streams_parse(line):
+    from fractions import Fraction as F
+    return [tuple(F(x) for x in tok.split(",")) for tok in line.split()[1:]]
+
+
 def run_c20(case):
     import impl
     L = impl.lnn()
@@ -467,6 +472,43 @@ def run_c20(case):
     lines.append("contra " + ids(sorted(kb.registered_ids())))
     out.append("c %d" % (1 if kb.model.has_contradiction() else 0))
     meta["contra_conv"] = out[-1]
+    # ---- variant 4: direction-restricted calls with a source, after traversals with OTHER sources
+    kb = build()
+    other = case.get("source2", src)
+    for first in ("full-up", "other-source"):
+        impl.take_log()
+        if first == "full-up":
+            steps, r = kb.model.infer(direction=L.Direction.UPWARD)
+        else:
+            steps, r = kb.model.infer(source=kb.obj[other], max_steps=3)
+        log = impl.take_log()
+        ups, downs = kb.calls(log, "upward"), kb.calls(log, "downward")
+        if first == "full-up":
+            lines.append(f"pass up {ids(ups)}"); out.append("r " + q(impl.amount(r)))
+        else:
+            per_u, per_d = len(ups) // max(steps, 1), len(downs) // max(steps, 1)
+            lines.append(f"infer {EPS} 3 - 0 {ids(ups[:per_u])} {ids(downs[:per_d])}"); out.append(f"n {steps} {q(impl.amount(r))}")
+        for direction in ("DOWNWARD", "UPWARD"):
+            before = snap(kb)
+            impl.take_log()
+            steps, r = kb.model.infer(direction=getattr(L.Direction, direction), source=kb.obj[src])
+            log = impl.take_log()
+            called = kb.calls(log, direction.lower())
+            lines.append(f"pass {'down' if direction == 'DOWNWARD' else 'up'} {ids(called)}"); out.append("r " + q(impl.amount(r)))
+            after = snap(kb)
+            inside4 = desc(kb, src)
+            if not set(called) <= inside4:
+                meta["violations"].append({"problem": f"infer(Direction.{direction}, source=) called formulae outside the source's sub-graph",
+                                           "after": first, "called_outside": sorted(set(called) - inside4)})
+            for i, a, b in zip(kb.order, streams_parse(before), streams_parse(after)):
+                if i not in inside4 and a != b:
+                    meta["violations"].append({"problem": f"infer(Direction.{direction}, source=) changed a formula outside the source's sub-graph",
+                                               "after": first, "node": i, "before": [q(x) for x in a], "now": [q(x) for x in b]})
+                    break
+            missing = [i for i in inside4 if type(kb.obj[i]).__name__ != "Proposition" and i not in set(called)]
+            if missing:
+                meta["violations"].append({"problem": f"infer(Direction.{direction}, source=) did not visit formulae of the source's sub-graph",
+                                           "after": first, "not_called": missing})
     # ---- variant 3: infer_query() == infer(source=query)
     kb = build()
     kb.model.set_query(kb.obj[qn], converge=True)
